@@ -38,6 +38,8 @@ fn overflow_in_sender(p: &PanicInfo) -> bool {
 /// builder must produce exactly the size the emitter budgeted against the 1472-byte limit).
 fn panics_in_frame_building(p: &PanicInfo) -> bool {
     p.file.contains("half_connection/emit.rs") || p.file.contains("frame/serial/build.rs")
+        // arithmetic on fragment counts and sizes while a packet is split or put together
+        || (p.message.contains("overflow") && (p.file.contains("half_connection/mod.rs") || p.file.contains("pending_packet.rs") || p.file.contains("assembly_window")))
 }
 
 /// C06: the sender's own assertion that a transfer-window slot is free when a packet is emitted
@@ -419,6 +421,23 @@ fn c03_gen_genuine(seed: u64, run: u64, thorough: bool) -> Plan {
     let mut sc = c01_sc(&mut r, thorough, run % 3 == 0, run % 2 == 0);
     sc.phases = r.range(2, 5);
     let mut plan = world_a_general("C03", "a_genuine", seed, run, &sc, run % 2 == 1);
+    // every fourth run: many steps are followed by another one within the same millisecond
+    // (0.05-0.9 ms later), so that two consecutive step() calls see the same clock value with
+    // frames arriving in between
+    if run % 4 == 2 {
+        let mut extra = Vec::new();
+        for t in plan.timeline.iter() {
+            if let Op::Step { ep } = &t.op {
+                if r.chance(0.4) {
+                    extra.push((t.t_us + r.range(50, 900), *ep));
+                }
+            }
+        }
+        for (t, ep) in extra {
+            plan.push(t, r.u32() | 1, Op::Step { ep });
+        }
+        plan.sort();
+    }
     if run % 2 == 1 {
         plan.end_us = plan.end_us.min(sc.fault_until_us + 120_000_000);
         for t in plan.timeline.iter_mut() {
@@ -710,15 +729,55 @@ fn c04_adv(plan: &Plan) -> Option<Box<dyn Adversary>> {
     Some(Box::new(Rewriter::new(plan)))
 }
 
+/// One packet of the largest size there is (65536 fragments, or a few bytes less) on a clean, fast
+/// link, preceded by a small packet that is still unacknowledged when it is submitted.
+fn max_packet_plan(property: &'static str, scenario: &'static str, seed: u64, run: u64) -> Plan {
+    let mut r = Rng::keyed(&[seed, run, 0x6d6178]);
+    let mut plan = Plan::new(property, scenario, seed, run);
+    plan.fate_seed = Some(crate::rng::key(&[seed, run, 0xfa7e]));
+    let mut setup = ASetup::default_like();
+    setup.packet_base = [r.u32() & 0xFFFFF, r.u32() & 0xFFFFF];
+    setup.frame_base = [r.u32(), r.u32()];
+    let max = uflow::MAX_PACKET_SIZE as u64;
+    for i in 0..2 {
+        setup.bandwidth[i] = 2_000_000_000;
+        setup.alloc[i] = max;
+    }
+    plan.endpoints = setup.endpoints();
+    plan.push(0, 0, Op::Create { ep: 0 });
+    plan.push(0, 1, Op::Create { ep: 1 });
+    plan.push(0, 2, Op::Link { from: None, to: None, rule: clean_rule(r.range(2_000, 20_000)) });
+    plan.push(0, 3, Op::Mark { name: "heal".into() });
+    let len = (max - *r.pick(&[0u64, 0, 1, 700, 1447, 1448])) as u32;
+    let t = 50_000;
+    plan.push(t, 0x4000_0000, Op::Send { ep: 0, to: None, ch: 1, mode: MODE_RELIABLE, len: r.range(100, 3000) as u32, tag: 0 });
+    plan.push(t + r.range(1, 3000), 0x4000_0001, Op::Send { ep: 0, to: None, ch: r.below(3) as u8, mode: *r.pick(&[MODE_RELIABLE, MODE_PERSISTENT]), len, tag: 1 });
+    plan.push(t + 4000, 0x4000_0002, Op::Send { ep: 0, to: None, ch: 2, mode: MODE_RELIABLE, len: r.range(12, 3000) as u32, tag: 2 });
+    let horizon = 120_000_000;
+    let period = r.range(500, 3000);
+    plan.push(100, 3, Op::StepEvery { ep: 0, period_us: period, until_us: horizon });
+    plan.push(300, 3, Op::StepEvery { ep: 1, period_us: period, until_us: horizon });
+    plan.params.insert("end_when_quiescent".into(), 1.0);
+    plan.params.insert("expect_live".into(), 1.0);
+    plan.end_us = horizon;
+    plan.sort();
+    plan
+}
+fn c04_gen_max(seed: u64, run: u64, _thorough: bool) -> Plan {
+    max_packet_plan("C04", "a_max_packet", seed, run)
+}
+
 pub fn c04() -> CheckDef {
     CheckDef {
         property: "C04",
         families: vec![
-            Family { name: "a_lengths", world: "A", weight: 1, gen: c04_gen_lengths, oracles: c04_oracles, adversary: None, keep_workload: false, custom: None,
+            Family { name: "a_max_packet", world: "A", weight: 1, gen: c04_gen_max, oracles: c04_oracles, adversary: None, keep_workload: true, custom: None,
+                what: "one Reliable or Persistent packet of the largest size there is (65536 fragments, 94.9 MB, or up to one fragment less) on a clean fast link, between two small packets (one run in 601: three per quick tier)" },
+            Family { name: "a_lengths", world: "A", weight: 200, gen: c04_gen_lengths, oracles: c04_oracles, adversary: None, keep_workload: false, custom: None,
                 what: "payload length swept over {0,1,2,11..13,63..65,255..257, k*1448-2..k*1448+2 for k=1..8,16,45, 1 MB} by run index; fragments permuted, duplicated, partially lost and resent, interleaved with other packets, flush budgets that cut packets; then a clean link until everything Reliable has arrived" },
-            Family { name: "b_lengths", world: "B", weight: 1, gen: c04_gen_b, oracles: c04_oracles_b, adversary: None, keep_workload: false, custom: None,
+            Family { name: "b_lengths", world: "B", weight: 200, gen: c04_gen_b, oracles: c04_oracles_b, adversary: None, keep_workload: false, custom: None,
                 what: "the same length sweep through real Client/Server (both directions, several clients), bounded by the configured max_packet_size / max_receive_alloc; in a quarter of the runs the last swept packet is followed at once by a graceful disconnect() and must still arrive whole before the peer sees Disconnect" },
-            Family { name: "a_rewrite", world: "A", weight: 1, gen: c04_gen_rewrite, oracles: c04_oracles, adversary: Some(c04_adv), keep_workload: true, custom: None,
+            Family { name: "a_rewrite", world: "A", weight: 200, gen: c04_gen_rewrite, oracles: c04_oracles, adversary: Some(c04_adv), keep_workload: true, custom: None,
                 what: "same sweep, plus a hostile middlebox that appends to genuine frames a forged fragment for a packet in progress whose header disagrees with the first fragment seen (last-fragment id, channel or parent leads)" },
         ],
         panic_is_violation: panics_in_frame_building,
@@ -956,17 +1015,23 @@ fn c06_adv(plan: &Plan) -> Option<Box<dyn Adversary>> {
     Some(Box::new(h))
 }
 
+fn c06_gen_max(seed: u64, run: u64, _thorough: bool) -> Plan {
+    max_packet_plan("C06", "a_max_packet", seed, run)
+}
+
 pub fn c06() -> CheckDef {
     CheckDef {
         property: "C06",
         families: vec![
-            Family { name: "a_sender_respects", world: "A", weight: 10, gen: c06_gen_sender, oracles: c06_oracles_sender, adversary: None, keep_workload: false, custom: None,
+            Family { name: "a_max_packet", world: "A", weight: 1, gen: c06_gen_max, oracles: c06_oracles_sender, adversary: None, keep_workload: true, custom: None,
+                what: "a peer that advertises exactly one maximum-size packet (65536 fragments) of receive allocation; a small packet is outstanding when the maximum-size one is submitted, another follows (one run in 751)" },
+            Family { name: "a_sender_respects", world: "A", weight: 300, gen: c06_gen_sender, oracles: c06_oracles_sender, adversary: None, keep_workload: false, custom: None,
                 what: "genuine pairs, receive limits 1 byte..6 MB, windows 1..4096, all ack schedules and losses: packets taken from the send queue and not yet below the accepted window base stay within the advertised (fragment-rounded) allocation and 4096 packets; the genuine receiver never discards a packet for lack of memory" },
-            Family { name: "b_sender_respects", world: "B", weight: 4, gen: c06_gen_b, oracles: c06_oracles_sender, adversary: None, keep_workload: false, custom: None,
+            Family { name: "b_sender_respects", world: "B", weight: 120, gen: c06_gen_b, oracles: c06_oracles_sender, adversary: None, keep_workload: false, custom: None,
                 what: "real Client/Server with receive allocations 2 kB..4 MB: the limit each sender uses is the one its peer advertised in the handshake, and is respected" },
-            Family { name: "a_hostile_stream", world: "A", weight: 10, gen: c06_gen_hostile_stream, oracles: c06_oracles_receiver, adversary: Some(c06_adv), keep_workload: false, custom: None,
+            Family { name: "a_hostile_stream", world: "A", weight: 300, gen: c06_gen_hostile_stream, oracles: c06_oracles_receiver, adversary: Some(c06_adv), keep_workload: false, custom: None,
                 what: "victim receiver (limit 1 byte..4 MB) against a hostile stream: fragment counts up to 65536, ids inside/outside the window, never-completing packets, inconsistent parent leads, any read cadence; heap bytes attributed to the victim (allocator measurement) stay within the rounded limit plus a constant bookkeeping budget" },
-            Family { name: "a_ack_queue_flood", world: "A", weight: 1, gen: c06_gen_flood, oracles: c06_oracles_receiver, adversary: Some(c06_adv), keep_workload: false, custom: None,
+            Family { name: "a_ack_queue_flood", world: "A", weight: 30, gen: c06_gen_flood, oracles: c06_oracles_receiver, adversary: Some(c06_adv), keep_workload: false, custom: None,
                 what: "victim with a 1472 B/s ceiling flooded with empty data frames whose ids are 32 apart, so that every frame opens a new acknowledgement group faster than they can be sent" },
         ],
         panic_is_violation: panics_in_packet_sender,
